@@ -145,8 +145,8 @@ LEMMAS = seq_props.LEMMAS_ITER + [
     {"id": "L7", "statement": "unesc(esc s) = s, esc injective, no unescaped quote in esc s", "status": driver.lean_status("L7_esc_injective.lean")},
     {"id": "edge-agreement", "statement": "edges listed for parents in PRE(start; filter_, stop, maxlevel-1) and children passing filter_ "
      "and not stop = the parent-child pairs both of whose ends are declared (no edge names an undeclared node, no admitted link is missing)",
-     "status": "assumed bridge (consequence of L5: a child of an admitted parent at depth < maxlevel-1 is admitted iff not stop); "
-     "validated boundedly by the harness on all trees <= 4 nodes x subsets x maxlevel"},
+     "status": "over rose trees, as a list equality (order and multiplicity included): " + driver.lean_status("L11_edge_agreement.lean") +
+     "; correspondence of its definitions with the SMT spec functions by review, plus the harness on all trees <= 4 nodes x subsets x maxlevel"},
 ]
 
 
